@@ -23,7 +23,7 @@ ASSUMPTIONS = [
 
 
 def floors(tier):
-    return {"judged": 2000 if tier == "quick" else 20000, "rule_fired_total": 200}
+    return {"judged": 2000 if tier == "quick" else 20000, "rule_fired_total": 200, "judged_with_annotations": 1000 if tier == "quick" else 10000}
 
 
 def plan(tier, seed):
@@ -38,6 +38,7 @@ def plan(tier, seed):
         S += [{"kind": "l2", "w": 3, "ops1": [o]} for o in ("shl", "sub", "and", "xor")]
         S += [{"kind": "tmpl", "n": 20, "stream": i} for i in range(16)]
         S += [{"kind": "rand", "n": 1200, "stream": i, "depth": 3 + i % 3} for i in range(16)]
+        S += [{"kind": "ann", "n": 12, "stream": i} for i in range(8)]
         S += [{"kind": "selfcheck"}]
     else:
         S += [{"kind": "l1", "w": w} for w in (1, 2, 3, 4)]
@@ -47,6 +48,7 @@ def plan(tier, seed):
         S += [{"kind": "unary", "w": w} for w in (1, 2, 3)]
         S += [{"kind": "tmpl", "n": 60, "stream": i} for i in range(32)]
         S += [{"kind": "rand", "n": 2500, "stream": i, "depth": 3 + i % 3} for i in range(32)]
+        S += [{"kind": "ann", "n": 40, "stream": i} for i in range(16)]
         S += [{"kind": "selfcheck"}]
     return S
 
@@ -64,6 +66,14 @@ def _cases(spec, rng):
     elif k == "tmpl":
         for _ in range(spec["n"]):
             yield from G.templates(rng)
+    elif k == "ann":
+        # the same shapes with annotations on random leaves and inner nodes (annotations never change what an
+        # expression denotes; rules that compare operands by identity see equal operands as different objects)
+        for _ in range(spec["n"]):
+            yield from G.templates(rng)
+            g = G.Gen(rng, nvars=rng.choice([1, 2]), widths=[1, 2, 3, 4, 8, 32], surface=False)
+            for _ in range(40):
+                yield g.any(rng.choice([1, 2, 3]))
     elif k == "rand":
         widths = [1, 2, 3, 4, 5, 8, 16, 32, 64]
         if spec["stream"] % 4 == 3:
@@ -86,15 +96,18 @@ def run_shard(spec, res):
     rules.install()
     keep = sem.Keep()
     tmo = 2000 if spec["tier"] == "quick" else 8000
-    for d in _cases(spec, rng):
+    for i, d in enumerate(_cases(spec, rng)):
         if not well_formed(d):
             continue
-        judge(d, res, rng, keep, tmo, spec["kind"])
+        ann = None
+        if spec["kind"] == "ann":
+            ann = [f"{spec['seed']}:{spec['stream']}:{i}", rng.choice([0.15, 0.3, 0.6])]
+        judge(d, res, rng, keep, tmo, spec["kind"], ann=ann)
     rules.report(res)
     res.count("rule_fired_total", sum(rules.fired.values()))
 
 
-def judge(d, res, rng, keep, tmo, kind="replay"):
+def judge(d, res, rng, keep, tmo, kind="replay", ann=None):
     import claripy
 
     from vf.gen.build import build
@@ -103,7 +116,16 @@ def judge(d, res, rng, keep, tmo, kind="replay"):
 
     nontrivial = bool(bvsem.variables(d)) and bvsem.size(d) > 1
     try:
-        ast = build(d)
+        if ann is not None:
+            from vf.gen import astwork
+
+            log = []
+            ast = astwork.build_annotated(d, random.Random(ann[0]), p=ann[1], log=log)
+            res.count("annotations_placed", len(log))
+            if log:
+                res.count("judged_with_annotations")
+        else:
+            ast = build(d)
     except claripy.errors.ClaripyZeroDivisionError:
         res.count("exempt_div0")
         if not sem.div0_possible(d, rng):
@@ -128,13 +150,13 @@ def judge(d, res, rng, keep, tmo, kind="replay"):
     if repr(ast) and ast.op != bvsem.base(d[0]):
         res.count("rewritten_or_folded")
     for p in probs:
-        res.violation({"kind": "meaning", "case": d, "shard": kind, **p})
+        res.violation({"kind": "meaning", "case": d, "shard": kind, **({"ann": ann} if ann else {}), **p})
 
 
 def replay(w, res):
     from vf.mon import sem
 
-    judge(w["case"], res, random.Random(0), sem.Keep(), 10000)
+    judge(w["case"], res, random.Random(0), sem.Keep(), 10000, ann=w.get("ann"))
 
 
 def selfcheck(res, rng):
